@@ -1,4 +1,79 @@
-import Nstd.Args.Model
+import Nstd.Args.LemmasExec
+/-
+  Property C20 -- theorems about the model of src/Process.cpp (Nstd/Args/Model.lean) and the
+  specification (Nstd/Args/Spec.lean).  Bytes are natural numbers; 0 is the terminator,
+  34 = '"', 92 = '\\', 32 = ' ', 61 = '=', 45 = '-'.
+-/
 namespace Nstd.Args
-theorem placeholder : splitCommandLine [0] = .done [] := by decide
+open Spec
+
+/-! ### the command-line form: splitCommandLine -/
+
+/-- for every command line (any bytes without NUL; `junk` = whatever follows the terminator in the
+    buffer) the loops of splitCommandLine deliver exactly the words of the reference tokenizer -/
+theorem split_spec (line junk : List Nat) (h : ∀ c ∈ line, c ≠ 0) :
+    splitCommandLine (line ++ 0 :: junk) = .done (tokenize line) :=
+  splitCommandLine_spec line junk h
+
+/-- ... in particular the loops end (never `.fuel`: the obligation the unrepaired code, D34, violates
+    for `"a\b"`) and never read outside the buffer (never `.fault`) -/
+theorem split_terminates (line junk : List Nat) (h : ∀ c ∈ line, c ≠ 0) :
+    splitCommandLine (line ++ 0 :: junk) ≠ .fuel ∧ splitCommandLine (line ++ 0 :: junk) ≠ .fault := by
+  rw [split_spec line junk h]; exact ⟨by simp, by simp⟩
+
+/-- the documented quoting rules are usable: a list of words written as double-quoted segments with
+    `"` escaped as `\"`, separated by single blanks, is read back as exactly these words -- for all
+    word lists whose words do not end in a backslash and whose last word is not empty (the two cases
+    the quoting rules cannot express) -/
+theorem split_roundtrip (ws : List Word) (junk : List Nat)
+    (h0 : ∀ c ∈ joinWords ws, c ≠ 0) (hb : ∀ w ∈ ws, w.getLast? ≠ some 92) (hl : ws.getLast? ≠ some []) :
+    splitCommandLine (joinWords ws ++ 0 :: junk) = .done ws := by
+  rw [split_spec _ junk h0]; exact congrArg _ (tok_joinWords ws hb hl)
+
+example : splitCommandLine ([101, 32, 34, 97, 92, 98, 34] ++ 0 :: [7]) = .done [[101], [97, 92, 98]] := by decide
+example : splitCommandLine (joinWords [[97, 32, 98], [], [99, 34, 100]] ++ [0]) = .done [[97, 32, 98], [], [99, 34, 100]] := by decide
+
+/-! ### what reaches execvpe -/
+
+/-- `open(executable, List<String> args, streams, environment)` (and `open/start(executable, argc, argv, ...)` with
+    a vector of non-null pointers): execvpe gets the executable as file and as argv[0], the given
+    arguments behind it, the environment `key=value` in map order (the parent's if the map is empty), and
+    exactly the requested pipes are created -/
+theorem argv_env_exact (executable : Str) (args : List Str) (streams : Nat) (env : List (Str × Str)) :
+    openList executable args streams env =
+      some { file := executable, argv := executable :: args.drop 1,
+             env := if env = [] then none else some (env.map (fun kv => kv.1 ++ [61] ++ kv.2)),
+             pipes := streams % 8 } :=
+  openArgv_plain executable args streams env
+
+/-- a vector that already carries its terminating null pointer (the `argv[argc-1] == 0` shortcut) is passed on unchanged -/
+theorem argv_env_exact_terminated (executable : Str) (args : List Str) (streams : Nat) (env : List (Str × Str)) :
+    openArgv executable (args.length + 1) (args.map some ++ [none]) streams env =
+      some { file := executable, argv := args,
+             env := if env = [] then none else some (env.map (fun kv => kv.1 ++ [61] ++ kv.2)),
+             pipes := streams % 8 } :=
+  openArgv_terminated executable args streams env
+
+/-- the command-line form: file = first word, argv = the words of the reference tokenizer
+    (one empty word if there is none) -/
+theorem argv_env_exact_command (line : Str) (h : ∀ c ∈ line, c ≠ 0) (streams : Nat) (env : List (Str × Str)) :
+    openCommand line streams env =
+      some { file := (tokenize line).headD [],
+             argv := if tokenize line = [] then [[]] else tokenize line,
+             env := if env = [] then none else some (env.map (fun kv => kv.1 ++ [61] ++ kv.2)),
+             pipes := streams % 8 } := by
+  unfold openCommand
+  have := split_spec line [] h
+  simp only [this]
+  cases hw : tokenize line with
+  | nil =>
+    have := openArgv_terminated [] [[]] streams env
+    simpa [execOf] using this
+  | cons w ws =>
+    have := openArgv_terminated w (w :: ws) streams env
+    simpa [execOf] using this
+
+example : openCommand [120, 32, 34, 97, 32, 98, 34] 5 [([75], [118])] =
+    some { file := [120], argv := [[120], [97, 32, 98]], env := some [[75, 61, 118]], pipes := 5 } := by decide
+
 end Nstd.Args
